@@ -79,7 +79,18 @@ func newPos(l *lookup, fileName, funcName string, line, column int) pos {
 	// return struct{}{}
 	fileNameIdx := l.Index("#" + fileName)
 	funcNameIdx := l.Index("#" + funcName)
-	return pos((fileNameIdx << 48) | (funcNameIdx << 32) | (line << 16) | column)
+	return pos((clamp16(fileNameIdx) << 48) | (clamp16(funcNameIdx) << 32) | (clamp16(line) << 16) | clamp16(column))
+}
+
+// clamp16 keeps a field of a packed position from spilling into its neighbour.
+func clamp16(n int) int {
+	if n < 0 {
+		return 0
+	}
+	if n > 0xffff {
+		return 0xffff
+	}
+	return n
 }
 
 func (p pos) IsZero() bool {
